@@ -444,6 +444,8 @@ def eval_stream_case(flex, workdir, case):
             # enlarged for it): accepted with a small YY_BUF_SIZE, in an action that calls yyunput, after a run that agrees
             # with the machine up to that action (when exactly it must occur is the subject of the unput grid, coq/Unput.v)
             small = any(o.startswith("-DYY_BUF_SIZE=") and int(o.split("=")[1]) <= 64 for o in (case.get('cc_extra') or []))
+            # a buffer made by yy_scan_bytes is exactly as large as its content (C08_unput_after_scan_bytes_overflows)
+            small = small or rn.get('mode') == 'b'
             lastt = [e for e in revs if e[0] == 'T']
             in_unput_action = bool(lastt) and any(o[0] == 'unput' for o in case['acts'].get(lastt[-1][1], []))
             if small and in_unput_action and revs == mevs[:len(revs)]:
